@@ -97,6 +97,10 @@ def plans(ctx, rng):
             out.append(("script", [0] * pos + [(TAGS[kind],)], [], None, None))
         for rpos in range(0, 3):
             out.append(("recv", [], [5] * rpos + [(TAGS[kind],)], None, None))
+        # a send that fails AFTER the kernel has taken the bytes (a send timeout on the last part of a large request, a reset that
+        # crosses the request on the wire): the server answers a command whose call has already failed
+        for pos in range(0, 8):
+            out.append(("script", [0] * pos + [(TAGS[kind], "after")], [], None, None))
     for rpos in range(0, 3):
         out.append(("eof", [], [3] * rpos + [None], None, None))
     for kind in REPLY_FAULTS:
